@@ -22,7 +22,7 @@ def run(ctx):
     units += program_units(rng, 30 if q else 300, ALL + ['sleep'], [8] if q else WS, cfgs_per=2, seed_base=ctx.seed + 102)
     from component import run_corr
     run_corr(ctx, 'corr_patterns', 'every emitted j classifies as a proved idiom; programs without time travel use only goto/branch/guard/return idioms')
-    diff_sweep(ctx, 'sequential programs', units, extra=halts_extra(ctx))
+    diff_sweep(ctx, 'sequential programs', units, extra=halts_extra(ctx), monitor=True)
     # unchecked builds of fault-free programs must behave identically (no faults feature here)
     units2 = program_units(rng, 30 if q else 300, ALL, ws, cfgs_per=2, seed_base=ctx.seed + 103, unchecked=True)
     diff_sweep(ctx, 'sequential programs, --unchecked', units2)
